@@ -93,6 +93,10 @@ type Case struct {
 	Seeds        []uint64 `json:"seeds"`
 	Unseeded     bool     `json:"unseeded,omitempty"` // min/max runs on an unseeded VM (global source must stay untouched)
 	Src          string   `json:"src,omitempty"`      // informational; the oracle prints the AST itself
+	// Late: 0 = Run under the mode; 1 = Parse with no mode set, then the mode is switched on, then RunAfterParsed;
+	// 2 = Parse and RunAfterParsed under the opposite fixed mode first, then the mode is switched, then RunAfterParsed
+	// again (a host that shows the bounds of one parsed expression): the mode in force when the code runs decides
+	Late int `json:"late,omitempty"`
 }
 
 // default-sides expressions and the value each yields under (min, max) mode
@@ -505,16 +509,46 @@ func runVM(c *Case, src string, mode int, seed uint64, unseeded bool) runOut {
 	vm.Config.EnableDiceDoubleCross = true
 	vm.Config.OpCountLimit = 1000000
 	vm.Config.DefaultDiceSideExpr = c.DefaultSides
-	switch {
-	case mode < 0:
-		vm.Config.DiceMinMode = true
-	case mode > 0:
-		vm.Config.DiceMaxMode = true
+	setMode := func(m int) {
+		vm.Config.DiceMinMode = m < 0
+		vm.Config.DiceMaxMode = m > 0
 	}
 	var out runOut
-	before, _ := vm.GetCurSeed()
 	var err error
-	out.pi = rt.Guard(func() { err = vm.Run(src) })
+	late := c.Late
+	if late == 2 {
+		other := -1
+		if mode < 0 {
+			other = 1
+		}
+		setMode(other)
+		var e0 error
+		if pi := rt.Guard(func() {
+			if e0 = vm.Parse(src); e0 == nil {
+				e0 = vm.RunAfterParsed()
+			}
+		}); pi != nil || e0 != nil {
+			late = 1 // the other mode does not get through: parse afresh
+		}
+	}
+	if late == 1 {
+		setMode(0)
+		out.pi = rt.Guard(func() { err = vm.Parse(src) })
+		if out.pi != nil {
+			return out
+		}
+		if err != nil {
+			out.err = err.Error()
+			return out
+		}
+	}
+	setMode(mode)
+	before, _ := vm.GetCurSeed()
+	if late == 0 {
+		out.pi = rt.Guard(func() { err = vm.Run(src) })
+	} else {
+		out.pi = rt.Guard(func() { err = vm.RunAfterParsed() })
+	}
 	after, _ := vm.GetCurSeed()
 	out.seedSame = string(before) == string(after)
 	if out.pi != nil {
@@ -974,6 +1008,7 @@ func drawTermCase(t *rapid.T) *Case {
 	c.Main = &Expr{Op: "term", T: genTerm(t, genOpts{allowDefault: true, nested: true})}
 	c.Seeds = drawSeeds(t, 2, 6)
 	c.Unseeded = rapid.IntRange(0, 6).Draw(t, "unseeded") == 6
+	c.Late = rapid.SampledFrom([]int{0, 0, 0, 1, 2}).Draw(t, "late")
 	c.Src = printCase(c)
 	return c
 }
@@ -992,6 +1027,7 @@ func drawExprCase(t *rapid.T) *Case {
 	c.Main = g.gen(rapid.IntRange(1, 3).Draw(t, "depth"), false)
 	c.Seeds = drawSeeds(t, 2, 5)
 	c.Unseeded = rapid.IntRange(0, 6).Draw(t, "unseeded") == 6
+	c.Late = rapid.SampledFrom([]int{0, 0, 0, 1, 2}).Draw(t, "late")
 	c.Src = printCase(c)
 	return c
 }
